@@ -60,10 +60,38 @@ def gen_straddle(rng, i):
     return "p%d %s %s %s" % (i, ca, cb, " ".join(ops)), "straddle"
 
 
+def gen_heal(rng, i):
+    """C09: an established connection, a total outage of 0..120 s (every packet lost, readers stalled, clocks served), then a network
+    that delivers everything and readers that keep reading for 150 s, then a graceful close on both sides"""
+    conv = rng.choice([0, 7, rng.randrange(1 << 32)])
+    ca = cfg(rng, "config") + ":%d" % conv
+    cb = cfg(rng, "config") + ":%d" % conv
+    t = rng.choice([1000, 1000, 4294967295 - rng.randrange(0, 150000)])
+    ops = ["T%d" % t, "cA", "N", "N", "N", "Q1"]
+    seed = rng.randrange(1, 250)
+    for _ in range(rng.randrange(1, 4)):
+        ops.append("s%s%d:%d" % (rng.choice("AB"), rng.choice([1, 100, 1284, 5000, 30000]), seed))
+    ops += ["Q2", "rA200000", "rB200000"]
+    t = (t + 750) % (1 << 32) or 1
+    for _ in range(rng.randrange(1, 3)):
+        ops.append("s%s%d:%d" % (rng.choice("AB"), rng.choice([1, 100, 3000, 20000]), seed))
+    dur = rng.choice([0, 500, 3000, 14000, 16000, 31000, 45000, 70000, 119000])
+    el = 0
+    while el < dur:
+        st = rng.choice([250, 1000, 1000, 4000, 16000]); el += st; t = (t + st) % (1 << 32) or 1
+        ops += ["T%d" % t, "kA", "kB", "Z"]
+    for _ in range(15):
+        ops += ["Q40", "rA200000", "rB200000"]
+    ops += ["hA1", "Q8", "rB200000", "hB1", "Q8", "rA200000", "rB200000", "Q40", "rA200000", "rB200000", "nA0", "nB0"]
+    return "h%d %s %s %s" % (i, ca, cb, " ".join(ops)), "heal"
+
+
 def gen_case(rng, i, kinds):
     kind = rng.choice(kinds)
     if kind == "straddle":
         return gen_straddle(rng, i)
+    if kind == "heal":
+        return gen_heal(rng, i)
     conv = rng.choice([0, 7, 0xffffffff, rng.randrange(1 << 32)])
     ca = cfg(rng, kind) + ":%d" % conv
     cb = cfg(rng, kind) + ":%d" % (conv if kind != "foreign" or rng.random() < 0.3 else (conv + 1) % (1 << 32))
@@ -174,6 +202,10 @@ def parse_out(out):
     return res
 
 
+ZERO_WINDOW_ABORT = ("zero-window probing gave up (ECONNABORTED) after 15 s without any segment from the peer, although the network delivered "
+                     "everything again later and the reader kept reading")
+
+
 def oracle(line, out, want=("C08", "C09", "C10"), want_window_sink=None):
     """Implementation-side oracles for the pseudo-TCP properties."""
     t = line.split()
@@ -192,6 +224,7 @@ def oracle(line, out, want=("C08", "C09", "C10"), want_window_sink=None):
     graceful = [None, None]        # number of bytes written before the side's graceful shutdown(WR)/close
     hostile = any(o[0] in "ij" for o in ops) or not same_conv
     last_sum = [None, None]
+    first_close = None
     last_nxt = [0, 0]
     wviol = want_window_sink if want_window_sink is not None else []
     now = 1000
@@ -199,9 +232,15 @@ def oracle(line, out, want=("C08", "C09", "C10"), want_window_sink=None):
     for op, (tok, evs, sums) in zip(ops, res):
         k = op[0]
         w = 1 if len(op) > 1 and op[1] == "B" else 0
-        for e in evs:
-            if e[0] == "C":
-                pass
+        # first error closure of the run: zero-window probing that gives up after 15 s of silence?
+        if first_close is None and any(re.match(r"^C\d+$", e) for e in evs):
+            ce = [e for e in evs if re.match(r"^C\d+$", e)][0]
+            prev = last_sum[w] if k in "csrhxknmlij" else None
+            first_close = (ce, k, prev["snd_wnd"] if prev else None)
+        if k in "csrhxknmlij" and sums:
+            last_sum[w] = sums[-1]
+        elif k == "Q" and len(sums) == 2:
+            last_sum = [sums[0], sums[1]]
         if k == "T":
             now = int(op[1:])
         if k == "Q":
@@ -310,8 +349,16 @@ def oracle(line, out, want=("C08", "C09", "C10"), want_window_sink=None):
             # packets of a foreign conversation change nothing and produce nothing
             if tok.endswith("=1") or any(e.startswith("P") for e in evs):
                 return "a packet with a foreign conversation number was processed"
+    if "C09" in want and t[0].startswith("h") and not hostile:
+        # the network healed for 150 s with both readers reading: everything written must have arrived, and no error closure
+        if any(err_closed):
+            if first_close and first_close[0] == "C103" and first_close[1] == "k" and first_close[2] == 0:
+                return ZERO_WINDOW_ABORT
+            return "an error closure was reported although the outage lasted at most 120 s and the network then delivered everything"
+        for w in (0, 1):
+            if read[w] != written[1 - w]:
+                return "%d of the %d bytes written by %s were readable after the network had healed for 150 s" % (len(read[w]), len(written[1 - w]), "AB"[1 - w])
     return None
-
 
 def nontrivial(line, out):
     return out is not None and " O" in out
